@@ -35,6 +35,14 @@ CLASS_HOME = {
     'LinesearchSolver': 'openmdao/solvers/linesearch/backtracking.py',
     'BoundsEnforceLS': 'openmdao/solvers/linesearch/backtracking.py',
     'ArmijoGoldsteinLS': 'openmdao/solvers/linesearch/backtracking.py',
+    'EQConstraintComp': 'openmdao/components/eq_constraint_comp.py',
+    'BalanceComp': 'openmdao/components/balance_comp.py',
+    'DotProductComp': 'openmdao/components/dot_product_comp.py',
+    'VectorMagnitudeComp': 'openmdao/components/vector_magnitude_comp.py',
+    'CrossProductComp': 'openmdao/components/cross_product_comp.py',
+    'AddSubtractComp': 'openmdao/components/add_subtract_comp.py',
+    'MuxComp': 'openmdao/components/mux_comp.py',
+    'MatrixVectorProductComp': 'openmdao/components/matrix_vector_product_comp.py',
 }
 
 PROPERTY_MODULES = {
@@ -56,6 +64,7 @@ PROPERTY_MODULES = {
     'C23': ['contracts.c23_doe'],
     'C02': ['contracts.c02_adjoint'],
     'C11': ['contracts.c11_assembled'],
+    'C26': ['contracts.c26_components'],
 }
 
 # modules whose contracts may be used as callee contracts by any property
@@ -375,3 +384,32 @@ GAPS['C21'] = ['scipy.optimize itself (assumed: success is reported only when th
                '_objfunc body (that it runs the model at x and refreshes _con_cache/_con_cache_x): assumed contract',
                '_congradfunc (sign of new-style constraint jacobians: an upper-only NonlinearConstraint gets a negated jacobian today; the optimizer then FAILS rather than reporting success, so it is outside this property and not repaired)',
                'differential_evolution / basinhopping / dual_annealing / shgo branches; pyOptSparse driver']
+
+
+def _c26_extra(tier, seed, native_run):
+    out = {'violations': [], 'errors': []}
+    r = _run_bounded('c26_components.py', [tier], timeout=6000)
+    if 'error' in r:
+        out['errors'].append('bounded stock-component tier could not run: ' + r['error'])
+        return out
+    out['bounded_stock_components'] = {
+        'note': 'BOUNDED stand-in (not counted in obligations): all ten components of the statement through the public API; values vs an independent NumPy formula written from the documentation, '
+                'total derivatives (fwd and rev) vs complex step, SplineComp additionally y == (dy/dy_cp) y_cp',
+        'bound': 'AddSubtractComp (vec_size x length x 2-3 inputs x scaling factors x units, shared inputs), MuxComp (vec_size x shapes x axis), DotProduct/VectorMagnitude (vec_size x length, units, shared inputs), '
+                 'CrossProduct (vec_size, units), MatrixVectorProduct (vec_size x A_shape), EQConstraint/Balance (shape, normalize, use_mult, |rhs| on both sides of 2), LinearSystemComp (size, vec_size, vectorize_A), '
+                 'SplineComp (%s methods x interior / beyond-both-ends query sets x vec_size); %s grid' % ('4' if tier == 'quick' else '7', tier),
+        'evaluations': r['evaluations'], 'distinct_nontrivial': r['distinct_nontrivial'], 'exhaustive': True,
+        'failures': r['n_failures'], 'samples': r['samples']}
+    for f in r['failures'][:3]:
+        out['violations'].append(dict(f, what='stock component: ' + f['kind'], witness_id='c26-%s' % json_key(f)))
+    return out
+
+
+EXTRA_TIERS['C26'] = _c26_extra
+GAPS['C26'] = ['AddSubtractComp, MuxComp, CrossProductComp, MatrixVectorProductComp, VectorMagnitudeComp, LinearSystemComp (LAPACK), SplineComp (interpolation tables): BOUNDED tier only (not proved)',
+               'EQConstraintComp / BalanceComp with shape () variables (the scalar branch of the normalisation)',
+               'declared sparsity (rows/cols in setup/add_* methods) of DotProductComp is quoted in the lemma, not derived from add_product',
+               'units: conversion happens in the framework (C04/C06), the components only pass unit strings on',
+               'BalanceComp.guess_nonlinear, add_constraint wiring of EQConstraintComp']
+PROPERTY_ASSUMPTIONS['C26'] = ['A3 complex-step values are dual numbers a + eps*b, eps**2 = 0: "exact partials" means the eps-part of the real compute() run on dual inputs',
+                               'NumPy orders complex values lexicographically (real part, then imaginary part); modelled as such for dual numbers']
